@@ -299,3 +299,57 @@ pub fn lstsq(a: &M64, b: &M64, rtol: f64) -> Option<M64> {
     }
     Some(c)
 }
+
+// ---------------------------------------------------------------------------------------
+// diagnosis of a third-party defect (nalgebra 0.33.3 SVD)
+// ---------------------------------------------------------------------------------------
+
+/// Relative reconstruction error ||U S V^T - A||_F / ||A||_F of the decomposition the library
+/// under test uses (`Matrix::svd(true, true)` of nalgebra). For a correct SVD this is a small
+/// multiple of the unit round-off. Returns None for non-finite input or singular values.
+pub fn svd_reconstruction_error<T: Sc>(a: &DMatrix<T>) -> Option<f64> {
+    if a.is_empty() || !a.iter().all(|v| v.f().is_finite()) {
+        return None;
+    }
+    let eps = <T as num_traits::Float>::epsilon() * T::of(5.0);
+    let svd = nalgebra::SVD::try_new_unordered(a.clone(), true, true, eps, 10_000)?;
+    if !svd.singular_values.iter().all(|s| s.f().is_finite()) {
+        return None;
+    }
+    let u = svd.u.as_ref()?;
+    let vt = svd.v_t.as_ref()?;
+    let rec = u * DMatrix::from_diagonal(&svd.singular_values) * vt;
+    let mut num = 0.0;
+    let mut den = 0.0;
+    for (x, y) in rec.iter().zip(a.iter()) {
+        num += (x.f() - y.f()).powi(2);
+        den += y.f().powi(2);
+    }
+    if den == 0.0 {
+        return Some(0.0);
+    }
+    Some((num / den).sqrt())
+}
+
+/// threshold above which a decomposition counts as wrong (orders of magnitude above the
+/// accuracy nalgebra normally delivers, orders below the error of the defect)
+pub fn svd_bad_threshold<T: Sc>() -> f64 {
+    if T::NAME == "f64" {
+        1e-9
+    } else {
+        2e-4
+    }
+}
+
+/// weighted basis matrix W∘Phi_ref(alpha) in T, as the library forms it
+pub fn phi_w<T: Sc>(spec: &ModelSpec, x: &DVector<T>, w: Option<&DVector<T>>, alpha: &[T]) -> DMatrix<T> {
+    let mut p = phi::<T>(spec, x, alpha);
+    if let Some(w) = w {
+        for j in 0..p.ncols() {
+            for i in 0..p.nrows() {
+                p[(i, j)] = w[i] * p[(i, j)];
+            }
+        }
+    }
+    p
+}
